@@ -67,7 +67,7 @@ let () =
     while true do
       let line = input_line ic in
       match List.filter (fun s -> s <> "") (String.split_on_char ' ' line) with
-      | ["D"; mh; chs] ->
+      | "D" :: mh :: chs :: _ ->
         let msg = bytes_of_hex mh in
         let chunkings = List.map (fun c -> if c = "e" then [] else List.map int_of_string (String.split_on_char ',' c))
                           (String.split_on_char '/' chs) in
@@ -107,8 +107,24 @@ let () =
       | ["P"; kh; mh; _; _] ->
         let key = bytes_of_hex kh and msg = bytes_of_hex mh in
         let p = hex_of_n 16 (siphash_plain key msg) and s = hex_of_n 16 (siphash_sse2 key msg) in
-        let def = if kh = "000102030405060708090a0b0c0d0e0f" then Printf.sprintf " def=%s,%s,%s" s s s else "" in
-        print_endline (Printf.sprintf "P plain=%s sse2=%s disp=%s%s | spec %s" p s s def (hex_of_n 16 (sip_spec key msg)))
+        (* default-key entry points and the value template: the dispatching siphash with key 00..0f *)
+        let defkey = List.init 16 n_of_int in
+        let d = hex_of_n 16 (siphash_sse2 defkey msg) in
+        let tpl = if List.mem (List.length msg) [1; 2; 3; 4; 8; 12; 16; 32] then " tpl=" ^ d else "" in
+        print_endline (Printf.sprintf "P plain=%s sse2=%s disp=%s def=%s,%s,%s,%s,%s%s | spec %s" p s s d d d d d tpl
+                         (hex_of_n 16 (sip_spec key msg)))
+      | ["L"; ph; n; chs; _; flag] ->
+        if flag <> "1" then print_endline "L skipped" else begin
+          let pat = Array.of_list (bytes_of_hex ph) in
+          let n = int_of_string n in
+          let msg = List.init n (fun i -> pat.(i mod Array.length pat)) in
+          let cks = split_chunks msg (List.map int_of_string (String.split_on_char ',' chs)) in
+          let b = Buffer.create 256 in
+          Buffer.add_string b "L";
+          List.iter (fun (nm, a) -> Buffer.add_string b (Printf.sprintf " %s=%s" nm (opt hex_of_bytes (digest a (junk a) cks)))) algos;
+          print_endline (Buffer.contents b)
+        end
+      | "Z" :: _ -> print_endline "Z skipped"
       | _ -> print_endline "?"
     done
   with End_of_file -> ());
